@@ -133,6 +133,87 @@ theorem lookup_apply_perm (ann : AList Str Str) {E π : List (Str × Str)} (hp :
   simp only [setsKey, Bool.and_eq_true, beq_iff_eq] at qx qy
   rw [qx.2, qy.2]
 
+/-! ### two independent iteration orders (the two `range` loops of `AdjustAnnotations`) -/
+
+/-- the single order that reproduces the pair `(π1, π2)`: removals as `π1` yields them, then
+    sets as `π2` yields them -/
+def mergeOrders (π1 π2 : List (Str × Str)) : List (Str × Str) :=
+  π1.filter (fun e => isMarked e.1) ++ π2.filter (fun e => !isMarked e.1)
+
+theorem removals_filter_marked (ann : AList Str Str) (π : List (Str × Str)) :
+    removals ann (π.filter (fun e => isMarked e.1)) = removals ann π := by
+  unfold removals
+  induction π generalizing ann with
+  | nil => rfl
+  | cons e r ih =>
+    cases hm : isMarked e.1
+    · simp only [List.filter_cons, hm, Bool.false_eq_true, if_false, List.foldl_cons]; exact ih ann
+    · simp only [List.filter_cons, hm, if_true, List.foldl_cons]; exact ih _
+
+theorem removals_filter_unmarked (ann : AList Str Str) (π : List (Str × Str)) :
+    removals ann (π.filter (fun e => !isMarked e.1)) = ann := by
+  unfold removals
+  induction π generalizing ann with
+  | nil => rfl
+  | cons e r ih =>
+    cases hm : isMarked e.1
+    · simp only [List.filter_cons, hm, Bool.not_false, if_true, List.foldl_cons, Bool.false_eq_true,
+        if_false]; exact ih ann
+    · simp only [List.filter_cons, hm, Bool.not_true, Bool.false_eq_true, if_false]; exact ih ann
+
+theorem sets_filter_unmarked (ann : AList Str Str) (π : List (Str × Str)) :
+    sets ann (π.filter (fun e => !isMarked e.1)) = sets ann π := by
+  unfold sets
+  induction π generalizing ann with
+  | nil => rfl
+  | cons e r ih =>
+    cases hm : isMarked e.1
+    · simp only [List.filter_cons, hm, Bool.not_false, if_true, List.foldl_cons, Bool.false_eq_true,
+        if_false]; exact ih _
+    · simp only [List.filter_cons, hm, Bool.not_true, Bool.false_eq_true, if_false, List.foldl_cons,
+        if_true]; exact ih ann
+
+theorem sets_filter_marked (ann : AList Str Str) (π : List (Str × Str)) :
+    sets ann (π.filter (fun e => isMarked e.1)) = ann := by
+  unfold sets
+  induction π generalizing ann with
+  | nil => rfl
+  | cons e r ih =>
+    cases hm : isMarked e.1
+    · simp only [List.filter_cons, hm, Bool.false_eq_true, if_false]; exact ih ann
+    · simp only [List.filter_cons, hm, if_true, List.foldl_cons]; exact ih ann
+
+/-- Two loops with orders `π1`, `π2` compute EXACTLY (as lists) what both loops compute on the
+    merged order. -/
+theorem applyOrders_eq_apply (ann : AList Str Str) (π1 π2 : List (Str × Str)) :
+    applyOrders ann π1 π2 = apply ann (mergeOrders π1 π2) := by
+  unfold applyOrders apply mergeOrders
+  have hr : removals ann (π1.filter (fun e => isMarked e.1) ++ π2.filter (fun e => !isMarked e.1))
+      = removals ann π1 := by
+    have : ∀ A B, removals ann (A ++ B) = removals (removals ann A) B := by
+      intro A B; unfold removals; rw [List.foldl_append]
+    rw [this, removals_filter_marked, removals_filter_unmarked]
+  have hs : ∀ m, sets m (π1.filter (fun e => isMarked e.1) ++ π2.filter (fun e => !isMarked e.1))
+      = sets m π2 := by
+    intro m
+    have : ∀ A B, sets m (A ++ B) = sets (sets m A) B := by
+      intro A B; unfold sets; rw [List.foldl_append]
+    rw [this, sets_filter_marked, sets_filter_unmarked]
+  rw [hr, hs]
+
+theorem mergeOrders_perm {E π1 π2 : List (Str × Str)} (h1 : π1.Perm E) (h2 : π2.Perm E) :
+    (mergeOrders π1 π2).Perm E := by
+  unfold mergeOrders
+  refine ((h1.filter _).append (h2.filter _)).trans ?_
+  exact List.filter_append_perm (fun e => isMarked e.1) E
+
+/-- Order independence for two INDEPENDENT iteration orders of the same map. -/
+theorem lookup_applyOrders (ann : AList Str Str) {E π1 π2 : List (Str × Str)} (h1 : π1.Perm E)
+    (h2 : π2.Perm E) (hn : (E.map (·.1)).Nodup) (k : Str) :
+    AList.lookup (applyOrders ann π1 π2) k = AList.lookup (apply ann E) k := by
+  rw [applyOrders_eq_apply]
+  exact lookup_apply_perm ann (mergeOrders_perm h1 h2) hn k
+
 end Annotations
 
 namespace Resources
